@@ -3,12 +3,16 @@ C05 — LCOV fixed point: grcov's own lcov report re-imports to the same report.
 Record-level theorems: the records `output_lcov` writes for a result, applied by the reader's
 record semantics (`brdaFold`, `daFold`: the functions the byte machine `Lcov.parse` calls, see
 Props/C04.lean), rebuild exactly the maps they were written from; hence export∘import is the
-identity on observables and iterating it changes nothing. `C05_roundtrip_bytes` is the byte-level statement (writer model = `printLcov`, tied to
+identity on observables and iterating it changes nothing (`C05_iterate`: from the first re-import on
+the result set is literally fixed, and `C05_second_export_equals_first`: the second export is the
+first export byte for byte, summary lines included). `C05_roundtrip_bytes` is the byte-level statement (writer model = `printLcov`, tied to
 `output_lcov` byte for byte by the correspondence run); the `…_partial` theorems are the
 record-layer facts it is built from (kept: they also cover records re-sorted by other tools).
 -/
 import GrcovModel.Lemmas.LcovWriter
+import GrcovModel.Lemmas.LcovIterate
 import GrcovModel.Props.C04
+import GrcovModel.Props.C05Rewrite
 namespace Grcov.Props.C05
 open Grcov AList Grcov.Lcov Grcov.Lcov.Spec
 
@@ -59,6 +63,97 @@ theorem C05_roundtrip_bytes (rs : List (Bytes × Cov)) (h : ∀ pc ∈ rs, Write
 every line, the same vector for every branch line, the same start line and executed flag for
 every function (and nothing else). -/
 theorem C05_roundtrip_same_data (c : Cov) (h : c.WF) : SameData (rtCov c) c := rtCov_same c h
+
+/-! ### iterating the round trip -/
+
+/-- what the writer can write and the reader returns unchanged as a file name: every record is in
+the writer's domain and every path is (as any Rust `String`) a fixed point of the name decoding -/
+def ReportOK (rs : List (Bytes × Cov)) : Prop :=
+  ∀ pc ∈ rs, WriterOK pc.1 pc.2 ∧ utf8Lossy pc.1 = pc.1
+
+/-- What the reader rebuilds is, list for list (order of the entries included), the record that was
+written, minus the branch lines that carry no branch at all (for which nothing is written). -/
+theorem C05_reimported_record (c : Cov) (h : c.WF) : rtCov c = dropEmpty c := rtCov_eq c h
+
+/-- **The second export equals the first, byte for byte** – every SF, FN, FNDA, BRDA, DA line and
+every summary line (FNF, FNH, BRF, BRH, LF, LH), in the same order. (The writer model emits the
+function records in the order of the record's function list; in the code that is the iteration
+order of an `FxHashMap`, a parameter of the model: the correspondence run checks the bytes for
+reports with at most one function per file and the record sets otherwise.) -/
+theorem C05_second_export_equals_first (rs : List (Bytes × Cov)) (h : ReportOK rs) :
+    printLcov (roundtrip rs) = printLcov rs :=
+  printLcov_roundtrip rs fun pc hpc => ⟨(h pc hpc).1.wf, (h pc hpc).2⟩
+
+/-- The summary lines are reproduced: the re-imported record has the same number of functions
+(FNF), executed functions (FNH), branches (BRF), taken branches (BRH), lines (LF) and hit lines
+(LH) as the record written. -/
+theorem C05_summary_lines_reproduced (c : Cov) (h : c.WF) :
+    (rtCov c).functions.length = c.functions.length
+    ∧ ((rtCov c).functions.filter fun nf => nf.2.executed).length
+        = (c.functions.filter fun nf => nf.2.executed).length
+    ∧ ((rtCov c).branches.map fun lv => lv.2.length).sum = (c.branches.map fun lv => lv.2.length).sum
+    ∧ ((rtCov c).branches.map fun lv => (lv.2.filter id).length).sum
+        = (c.branches.map fun lv => (lv.2.filter id).length).sum
+    ∧ (rtCov c).lines.length = c.lines.length
+    ∧ ((rtCov c).lines.filter fun lc => decide (lc.2 > 0)).length
+        = (c.lines.filter fun lc => decide (lc.2 > 0)).length := by
+  rw [rtCov_eq c h]
+  exact ⟨rfl, rfl, sum_length_nonEmptyVecs c.branches, sum_taken_nonEmptyVecs c.branches, rfl, rfl⟩
+
+/-- The writer's domain is closed under the round trip: what was re-imported can be exported again. -/
+theorem C05_roundtrip_stays_writable (rs : List (Bytes × Cov)) (h : ReportOK rs) :
+    ReportOK (roundtrip rs) := by
+  intro pc hpc
+  simp only [roundtrip, List.mem_map] at hpc
+  obtain ⟨q, hq, rfl⟩ := hpc
+  obtain ⟨hw, hp⟩ := h q hq
+  exact ⟨writerOK_roundtrip q.1 q.2 hw hp, utf8Lossy_idem q.1⟩
+
+/-- **Iterating the export/import any number of times changes nothing further.** For every report
+in the writer's domain and every k ≥ 1: k rounds of `parse true ∘ printLcov` all succeed and end in
+`roundtrip rs` – the result of the FIRST round, literally, whatever k; its export is the first
+export byte for byte; it lists the same files in the same order, and each record carries the same
+data as the one written (same count for every line, same vector for every branch line, same start
+line and executed flag for every function). -/
+theorem C05_iterate (rs : List (Bytes × Cov)) (h : ReportOK rs) (k : Nat) :
+    reimportIter (k + 1) rs = some (roundtrip rs)
+    ∧ printLcov (roundtrip rs) = printLcov rs
+    ∧ (roundtrip rs).map (·.1) = rs.map (·.1)
+    ∧ ∀ pc ∈ rs, SameData (rtCov pc.2) pc.2 := by
+  have hb := C05_second_export_equals_first rs h
+  have h1 : reimport rs = some (roundtrip rs) := by
+    simp only [reimport, C05_roundtrip_bytes rs fun pc hpc => (h pc hpc).1]; rfl
+  have h2 : reimport (roundtrip rs) = some (roundtrip rs) := by
+    have : reimport (roundtrip rs) = reimport rs := by simp only [reimport, hb]
+    rw [this, h1]
+  have fix : ∀ k, reimportIter k (roundtrip rs) = some (roundtrip rs) := by
+    intro k
+    induction k with
+    | zero => rfl
+    | succ k ih => simp only [reimportIter, h2, Option.bind_some, ih]
+  refine ⟨?_, hb, ?_, fun pc hpc => rtCov_same pc.2 (h pc hpc).1.wf⟩
+  · simp only [reimportIter, h1, Option.bind_some, fix k]
+  · simp only [roundtrip, List.map_map]
+    apply List.map_congr_left
+    intro pc hpc
+    exact (h pc hpc).2
+
+/-- non-vacuity: a report with a saturated count, an EMPTY branch vector (dropped by the round
+trip: `rtCov c ≠ c`), functions in non-sorted order and a non-ASCII name is in the domain, and its
+second export equals its first -/
+example :
+    let c : Cov := { lines := [(1, U64MAX), (7, 0)], branches := [(3, [false, true]), (9, [])],
+                     functions := [([195, 169], ⟨4, true⟩), ([102], ⟨0, false⟩)] }
+    rtCov c ≠ c ∧ printLcov (roundtrip [([97, 44, 98], c)]) = printLcov [([97, 44, 98], c)]
+      ∧ reimportIter 3 [([97, 44, 98], c)] = some (roundtrip [([97, 44, 98], c)]) := by
+  decide +kernel
+
+example : ReportOK [([97, 44, 98], { lines := [(1, U64MAX), (7, 0)], branches := [(3, [false, true]), (9, [])],
+                                     functions := [([195, 169], ⟨4, true⟩), ([102], ⟨0, false⟩)] })] := by
+  intro pc hpc
+  simp only [List.mem_singleton] at hpc; subst hpc
+  refine ⟨⟨⟨?_, ?_, ?_, ?_⟩, ?_, ?_, ?_, ?_⟩, by decide⟩ <;>
+    simp [NodupKeys, keys, U64MAX, U32MAX, noEol, LF, CR] <;> decide
 
 /-- non-vacuity: a concrete file with a saturated count, a gap in the branch lines and a non-ASCII
 function name is in the writer's domain -/
